@@ -27,6 +27,7 @@ Violations(e) ==
       [] e.op = "map"            -> MapViolations(e.leg, e.value, e.obs)
       [] e.op = "json_object"    -> JsonObjectViolations(e)
       [] e.op = "json_array"     -> JsonArrayViolations(e)
+      [] e.op = "json_odd"       -> JsonOddViolations(e)
       [] OTHER -> {"TOOL.unknown_event"}
 
 TStep == /\ l <= Len(Rec)
